@@ -147,6 +147,19 @@ let check (case : Sexp.t) (res : Sexp.t) : [ `Ok | `Mismatch of string | `Proper
     let a = term_of_sexp pa and b = term_of_sexp pb in
     let a0 = term_of_sexp ca and b0 = term_of_sexp cb in
     let store = parse_store st in
+    (* Model B correspondence: same verdict, and the same two sides after zonking with the model's store *)
+    let mb_mismatch =
+      (match unifyB Mb.fuel_b (List.init (max (Mb.max_hole a0) (Mb.max_hole b0) + 1) (fun _ -> None)) [] a0 b0 with
+       | None -> None
+       | Some (mok, mstore) ->
+         if mok <> (atom ok = "1") then Some (Printf.sprintf "unify returns %s, Model B returns %b" (atom ok) mok)
+         else if mok then begin
+           match zonk store a, zonk store b with
+           | Some za, Some zb ->
+             let ma = zonkB (nat_of_int 80) mstore a0 and mb = zonkB (nat_of_int 80) mstore b0 in
+             if Mb.canon [ ma; mb ] = Mb.canon [ za; zb ] then None else Some "the solved terms differ from Model B's"
+           | _ -> None
+         end else None) in
     if atom ctx <> "1" then (`Property "unify does not restore the definitions context", true)
     else if atom ok = "1" then begin
       match zonk store a, zonk store b with
@@ -158,12 +171,13 @@ let check (case : Sexp.t) (res : Sexp.t) : [ `Ok | `Mismatch of string | `Proper
             | _ -> false) store then
           (`Property ("a solution mentions a variable that is not in scope where its hole was written" ^ sg), true)
         else (match convb fuel_infer [] za zb with
-            | Some true -> (`Ok, true)
+            | Some true -> ((match mb_mismatch with Some m -> `Mismatch m | None -> `Ok), true)
             | Some false -> (`Property ("unification succeeded but filling the holes does not make the two terms definitionally equal" ^ sg), true)
             | None -> (`Ok, false))
     end else begin
       (* failure is required only in the reflexive hole-free case *)
-      if a0 = b0 && not (has_hole a0) then (`Property "unifying a hole-free term with itself fails", true) else (`Ok, true)
+      if a0 = b0 && not (has_hole a0) then (`Property "unifying a hole-free term with itself fails", true)
+      else ((match mb_mismatch with Some m -> `Mismatch m | None -> `Ok), true)
     end
   | _ -> (`Mismatch ("unrecognised " ^ Sexp.to_string res), false)
 
